@@ -58,12 +58,11 @@ impl Prop for C01 {
     }
     fn strategy(&self, _tier: Tier) -> BoxedStrategy<Case> {
         (
-            gen::enc_env(gen::addr7().boxed()),
-            gen::enc_call(false, false, false),
+            gen::enc_pair(gen::addr7().boxed(), gen::enc_call(false, false, false)),
             gen::ctx_cfg(),
             prop_oneof![3 => Just(Vec::new()).boxed(), 1 => gen::prior_history(4)],
         )
-            .prop_map(|(env, call, recv, recv_hist)| Case { enc: EncCase { env, call }, recv, recv_hist })
+            .prop_map(|((env, call), recv, recv_hist)| Case { enc: EncCase { env, call }, recv, recv_hist })
             .boxed()
     }
     fn budget(&self, tier: Tier) -> u64 {
